@@ -137,7 +137,7 @@ class Render:
         """accelerators whose registers a block may change (None = all, because of a call)"""
         out = set()
         for b in body or ():
-            if b[0] == "cfg":
+            if b[0] in ("cfg", "cfgk"):
                 out.add(b[1])
             elif b[0] in ("call", "lcall", "fullop"):
                 return None
@@ -200,6 +200,26 @@ class Render:
             ln = ", ".join(f'"{x}"' for x in d["launch"])
             self.emit(f'{tk} = "accfg.launch"({", ".join(lv)}, {st}) <{{param_names = [{ln}], accelerator = "{acc}"}}> : ({", ".join(lt)}, !accfg.state<"{acc}">) -> !accfg.token<"{acc}">', ind)
             self.emit(f'"accfg.await"({tk}) : (!accfg.token<"{acc}">) -> ()', ind)
+        elif k == "cfgk":
+            # two jobs; a constant the SECOND configuration is computed from sits between the first launch and its await
+            _, acc, pidx, cst = s
+            d = ACCS[acc]
+            vals = [self.value(v, ind) for v in PALETTE[acc][pidx]]
+            st = self.fresh("st")
+            params = ", ".join(f'"{f}" = {v} : i32' for f, v in zip(d["fields"], vals))
+            self.emit(f'{st} = accfg.setup "{acc}" to ({params}) : !accfg.state<"{acc}">', ind)
+            tk = self.fresh("tk")
+            self.emit(f'{tk} = "accfg.launch"(%l, {st}) <{{param_names = ["launch"], accelerator = "{acc}"}}> : (i5, !accfg.state<"{acc}">) -> !accfg.token<"{acc}">', ind)
+            kk, xx = self.fresh("k"), self.fresh("x")
+            self.emit(f"{kk} = arith.constant {cst} : i32", ind)
+            self.emit(f'"accfg.await"({tk}) : (!accfg.token<"{acc}">) -> ()', ind)
+            self.emit(f"{xx} = arith.addi {kk}, %a1 : i32", ind)
+            st2, tk2 = self.fresh("st"), self.fresh("tk")
+            self.emit(f'{st2} = accfg.setup "{acc}" to ("A" = {xx} : i32, "B" = %a1 : i32) : !accfg.state<"{acc}">', ind)
+            self.last_state[acc] = st2
+            self.prev = xx
+            self.emit(f'{tk2} = "accfg.launch"(%l, {st2}) <{{param_names = ["launch"], accelerator = "{acc}"}}> : (i5, !accfg.state<"{acc}">) -> !accfg.token<"{acc}">', ind)
+            self.emit(f'"accfg.await"({tk2}) : (!accfg.token<"{acc}">) -> ()', ind)
         elif k == "rl":
             # launch again with the configuration in effect (no setup of its own): only where a dominating setup of this
             # accelerator is certainly still in effect (nothing that may change the registers since, on any path)
@@ -407,7 +427,7 @@ def gen_stmts(size, depth, accs, in_loop, pal_limit, bounds_kinds):
 
 def has_cfg(prog):
     for s in prog:
-        if s[0] == "cfg":
+        if s[0] in ("cfg", "cfgk"):
             return True
         if s[0] in ("for", "forc", "forc2", "while") and has_cfg(s[2]):
             return True
@@ -419,7 +439,7 @@ def has_cfg(prog):
 def count_cfg(prog):
     n = 0
     for s in prog:
-        if s[0] == "cfg":
+        if s[0] in ("cfg", "cfgk"):
             n += 1
         elif s[0] in ("for", "forc", "forc2", "while"):
             n += count_cfg(s[2])
@@ -558,6 +578,13 @@ def program_set(tier, seed, want_calls=True):
                     add((("cfg", "acc1", pt), ("for", "args", body)))
                     if not quick:
                         add((("cfg", "acc1", pw), ("for", "c01", body)))
+    # a value of the next configuration computed between a launch and its await
+    for p_ in range(3):
+        add((("cfgk", "acc1", p_, 5),))
+        add((("cfg", "acc1", p_), ("cfgk", "acc1", (p_ + 1) % 3, 7)))
+        add((("for", "args", (("cfgk", "acc1", p_, 5),)),))
+        add((("cfg", "acc1", 0), ("for", "k13", (("cfgk", "acc1", 3, 9), ("cfg", "acc1", p_)))))
+        add((("if", 0, (("cfgk", "acc1", p_, 5),), None), ("cfg", "acc1", 1)))
     # an op that is no call but carries the mark "reprograms the accelerators", wherever a call can stand
     if want_calls:
         for p0 in range(2):
